@@ -11,7 +11,7 @@ bool done;
 enum { F_CUT = 0, F_CAPACITY };
 const char *fault_names[] = {"channel_cut", "capacity_exhausted", nullptr};
 enum { P_CUT_MID_VALUE = 0, P_CUT_AT_BOUNDARY, P_ALL_READ, P_EXACT_FIT, P_ONE_OVER, P_REJECTED, P_EMPTY_CONTAINER, P_NESTED_VECTOR };
-const char *probe_names[] = {"cut_inside_a_value", "cut_at_value_boundary", "all_values_read_back", "fixed_writer_exact_fit", "fixed_writer_one_byte_over",
+const char *probe_names[] = {"cut_made_a_read_throw", "cut_at_value_boundary", "all_values_read_back", "fixed_writer_exact_fit", "fixed_writer_one_byte_over",
                              "fixed_writer_rejected_a_write", "empty_string_or_vector", "nested_vector", nullptr};
 const char *tn[] = {"u8", "i16", "i32", "u64", "float", "double", "pod-struct", "string", "c-string", "vector<int>", "vector<string>", "vector<vector<int>>",
                     "ArrayView", "OwnedArray", "FixedArray", "FixedArrayView"};
@@ -93,7 +93,8 @@ void a15_note_cut(size_t total, size_t cut, int before, int threw_at)
   sim_event(1500, total, cut);
   if (plan.mode == 1 && cut < total) {
     sim_fault(F_CUT, 1, 1);
-    sim_probe(threw_at >= 0 ? P_CUT_MID_VALUE : P_CUT_AT_BOUNDARY);
+    if (threw_at >= 0)
+      sim_probe(P_CUT_MID_VALUE);
   }
   if (threw_at < 0 && before == plan.nvals)
     sim_probe(P_ALL_READ);
